@@ -22,6 +22,10 @@ func init() {
 			{ID: "C06.R2", Text: "IsInSnapshotMarker: true ⇔ snapshot≠nil ∧ Start ≤ seq ≤ End; panic otherwise; never returns false", Run: c06r2},
 			{ID: "C06.R3", Text: "replace, never mutate: no in-place store to SnapshotMarker/Offset fields; every store to observer.currentSnapshot assigns a freshly allocated literal built from the event", Run: c06r3},
 			{ID: "C06.R4", Text: "observer.vbUUID is written only by SetVbUUID, which is called only under err==nil of an open-stream callback with failOverLogs[0].VbUUID", Run: c06r4},
+			{ID: "C06.R6", Text: "the snapshot in effect is the announced one: markers and seqno-advanced events pass the gate as control events (never dropped by the catch-up filter), data events never do; the initial position of a fresh session carries the newest branch id (same rules as C07.R1 control flags, C02.R4)", Run: func(c *Ctx, id string) {
+				gateArgsRule(c, id, observerInfo(c, id))
+				c02r4(c, id)
+			}},
 			{ID: "C06.R5", Text: "the persisted document is built field by field from one offset (same rule as C02.R2)", Run: c02r2},
 		},
 	})
